@@ -384,6 +384,11 @@ impl<'a> Interp<'a> {
         }
         if !self.parked.is_empty() && !matches!(s, Step::Resume { .. } | Step::Status) {
             self.overlap = true;
+            // which operation kinds ran inside which window
+            for p in &self.parked {
+                let l = format!("window:{}|{}", self.sched.parked_label(p.worker), s.kind());
+                self.labels.push(l);
+            }
         }
         if !matches!(s, Step::OpenGate { .. } | Step::Status | Step::Poll { .. } | Step::PollWoken { .. } | Step::Cancel { .. }) {
             self.disturb += 1;
